@@ -152,11 +152,7 @@ Section Commands.
     eapply pres_trans; [eapply add_variable_pres; exact E|]. eapply IH; exact H.
   Qed.
   Lemma declare_global_pres o : forall ids st st', declare_global o ids st = Ok st' -> pres st st'.
-  Proof.
-    induction ids as [|i r IH]; intros st st' H; cbn [declare_global] in H; [inversion H; subst; apply pres_refl|].
-    destruct (name_of i) as [n| | |]; cbn [bind] in H; try discriminate.
-    eapply pres_trans; [|eapply IH; exact H]. pres_wrap.
-  Qed.
+  Proof. exact (declare_pres (fun _ => o)). Qed.
 
   Definition is_read_cmd (c : command) : bool := let '(Cmd name _) := c in str_eqb (lower name) nm_read.
 
